@@ -49,6 +49,8 @@ func init() {
 			emit("mux 612f62 010203 1 0 1 7 2 TP ZF A")
 			emit("async 612f62 010203 1 0 1 7 2 TP ZF A")
 			emit("mux 61 - 0 0 0 0 1 AAP R")
+			emit("asyncd 612f62 010203 1 0 1 7 3 TPF ZA")
+			emit("asyncd 61 0102030405060708 0 0 0 0 4 Z N")
 			ops := "TPZARF"
 			for i := 0; i < n; i++ {
 				k := 1 + rng.Intn(6)
@@ -65,8 +67,18 @@ func init() {
 					scripts = append(scripts, s)
 				}
 				mode := "mux"
-				if rng.Intn(2) == 0 {
+				switch rng.Intn(3) {
+				case 0:
 					mode = "async"
+				case 1:
+					mode = "asyncd"
+					if len(scripts) < 2 {
+						scripts = append(scripts, "ZT")
+					}
+					scripts = scripts[:2]
+					if scripts[0] == "N" {
+						scripts[0] = "PTF"
+					}
 				}
 				emit(fmt.Sprintf("%s %s %s %d %d %d %d %d %s", mode, descBytes([]byte(randTopicString(rng))), descBytes(randBytes(rng, rng.Intn(65))),
 					rng.Intn(3), rng.Intn(2), rng.Intn(2), rng.Intn(65535), 1+rng.Intn(5), strings.Join(scripts, " ")))
@@ -85,6 +97,31 @@ func init() {
 			var mu sync.Mutex
 			var views []string
 			r := Result{Tags: []string{"nontrivial", mode, fmt.Sprintf("handlers%d", len(scripts))}}
+			if mode == "asyncd" {
+				// ServeAsync used directly: scripts[0] is what the CALLER does to its own message right
+				// after Serve returned (a dispatcher reusing its buffer), scripts[1] what the handler does.
+				var views, wants []string
+				for round := 0; round < rounds; round++ {
+					done := make(chan string, 1)
+					h := &mqtt.ServeAsync{Handler: mqtt.HandlerFunc(func(m *mqtt.Message) {
+						v := viewOf(m)
+						runScript(m, scripts[1])
+						done <- v
+					})}
+					wants = append(wants, viewOf(msg))
+					h.Serve(msg)
+					runScript(msg, scripts[0])
+					views = append(views, <-done)
+				}
+				r.Out = strings.Join(views, " ") + " | caller=" + viewOf(msg)
+				for i := range views {
+					if views[i] != wants[i] {
+						r.Props = append(r.Props, viol("C20", "async-saw-later-content", "async handler of round %d saw %s, dispatched %s", i, views[i], wants[i]))
+						break
+					}
+				}
+				return r
+			}
 			for round := 0; round < rounds; round++ {
 				roundViews := make([]string, len(scripts))
 				var wg sync.WaitGroup
